@@ -20,8 +20,8 @@
     item of [items] for the value [a] with the formatter and runs [unambiguous_ws_b]. *)
 From Coq Require Import ZArith List Bool.
 From V Require Import Base.Int Base.IO Base.Utf8 Model.Scan Model.Items Model.Parse
-  Proofs.Utf8 Proofs.Scan Proofs.C13 Proofs.C13Reads Proofs.C13Fmt Proofs.C13Examples.
-From V Require Model.Parsed Model.Format.
+  Proofs.Utf8 Proofs.Scan Proofs.C13 Proofs.C13Reads Proofs.C13Fmt Proofs.C13Examples Proofs.C13Names Proofs.C13Digits.
+From V Require Model.Parsed Model.Format Spec.StrftimeDoc.
 Import ListNotations.
 Open Scope Z_scope.
 
@@ -110,6 +110,65 @@ Theorem C13_item_inverse : forall relaxed it t rest w,
   reads_b it t rest = Some w -> item_reads relaxed it t rest (eff_of w).
 Proof. exact reads_b_sound. Qed.
 Print Assumptions C13_item_inverse.
+
+(** ** names in any letter case: every case variant of a printed month name, weekday name or
+    AM/PM marker (default locale tables, regenerated from locales.rs) is recognised, hence read back
+    exactly (C13_item_inverse) *)
+Theorem C13_long_month_any_case : forall m0 t rest, 0 <= m0 < 12 ->
+  case_variant t (month_name true m0) -> starts_ok rest = true ->
+  reads_b (IFixed F_LongMonthName) t rest = Some (W_code 7 (m0 + 1)).
+Proof. exact long_month_any_case. Qed.
+Print Assumptions C13_long_month_any_case.
+Theorem C13_short_month_any_case : forall m0 t rest, 0 <= m0 < 12 ->
+  case_variant t (month_name false m0) -> starts_ok rest = true ->
+  reads_b (IFixed F_ShortMonthName) t rest = Some (W_code 7 (m0 + 1)).
+Proof. exact short_month_any_case. Qed.
+Print Assumptions C13_short_month_any_case.
+Theorem C13_long_weekday_any_case : forall wd t rest, 0 <= wd < 7 ->
+  case_variant t (weekday_name true wd) -> starts_ok rest = true ->
+  reads_b (IFixed F_LongWeekdayName) t rest = Some (W_weekday wd).
+Proof. exact long_weekday_any_case. Qed.
+Print Assumptions C13_long_weekday_any_case.
+Theorem C13_short_weekday_any_case : forall wd t rest, 0 <= wd < 7 ->
+  case_variant t (weekday_name false wd) -> starts_ok rest = true ->
+  reads_b (IFixed F_ShortWeekdayName) t rest = Some (W_weekday wd).
+Proof. exact short_weekday_any_case. Qed.
+Print Assumptions C13_short_weekday_any_case.
+Theorem C13_ampm_any_case : forall (pm lower : bool) t rest,
+  case_variant t (ampm_name pm) -> starts_ok rest = true ->
+  reads_b (IFixed (if lower then F_LowerAmPm else F_UpperAmPm)) t rest = Some (W_ampm (if pm then 1 else 0)).
+Proof. exact ampm_any_case. Qed.
+Print Assumptions C13_ampm_any_case.
+Example C13_case_variant_example :
+  case_variant [115; 69; 80; 116; 69; 109; 66; 101; 82] (month_name true 8) /\
+  case_variant [112; 109] (ampm_name true).
+Proof. exact case_variant_example. Qed.
+Print Assumptions C13_case_variant_example.
+
+(** ** every padding modifier: the documented rendering of a numeric field ([pad_num] of
+    Spec/StrftimeDoc.v, which C12 proves the formatter prints) is recognised with its value *)
+Theorem C13_decimal_digits : forall n, 0 <= n -> digit_string (dec_nonneg n) n.
+Proof. exact dec_nonneg_digits. Qed.
+Print Assumptions C13_decimal_digits.
+
+Theorem C13_pad_num_unsigned_reads : forall spec width (signed : bool) code p w v rest,
+  numeric_entry spec = Some (width, signed, code) ->
+  0 <= v -> 0 <= w <= width -> 1 <= width -> v < 10 ^ width -> v <= i64_max ->
+  utf8_valid rest = true ->
+  (not_digit_start rest = true \/
+   (match p with StrftimeDoc.DZero => Z.max w (blen (dec_nonneg v)) | _ => blen (dec_nonneg v) end) = width) ->
+  reads_numeric spec (StrftimeDoc.pad_num p w false v) rest = Some (W_code code v).
+Proof. exact pad_num_unsigned_reads. Qed.
+Print Assumptions C13_pad_num_unsigned_reads.
+
+(* signed and five-digit years: "+12345", "-0001", "   -5" *)
+Theorem C13_pad_num_signed_reads : forall spec width code p w v rest,
+  numeric_entry spec = Some (width, true, code) ->
+  0 <= w <= 1000 -> Z.abs v <= i64_max ->
+  not_digit_start rest = true -> utf8_valid rest = true ->
+  reads_numeric spec (StrftimeDoc.pad_num p w true v) rest = Some (W_code code v).
+Proof. exact pad_num_signed_reads. Qed.
+Print Assumptions C13_pad_num_signed_reads.
 
 (** ** composition: the decision procedure is sound for the whole loop *)
 Theorem C13_unambiguous_sound : forall relaxed l tail ws, unambiguous_b l tail = Some ws ->
